@@ -452,10 +452,14 @@ func genV2Full(c *collector) {
 	}
 	// length field larger than what follows; lengths around the limit
 	for _, l := range []int{2047, 2048, 2049, 4096, 65535} {
-		b := genBody(3, l)
+		n := l
+		if n > 2100 {
+			n = 2100 // an announced length above the limit is refused before the body is read: no need to send all of it
+		}
+		b := genBody(3, n)
 		c.add(append(v2header(0x21, 0x11, l, b), "GET /"...), "v2 length limit", false, 1)
 		c.add(append(v2header(0x20, 0x00, l, b), "GET /"...), "v2 length limit LOCAL", false, 1)
-		c.add(v2header(0x21, 0x11, l, b[:l/2]), "v2 body shorter than announced", false, 1)
+		c.add(v2header(0x21, 0x11, l, b[:n/2]), "v2 body shorter than announced", false, 1)
 	}
 }
 
@@ -813,16 +817,41 @@ func main() {
 		vcoq = append(vcoq, coqVcase(vc, fam, length, seed, o))
 		vjs = append(vjs, vcaseJSON{"v2", vc, fam, length, seed})
 	}
+	// spread the expensive (long) cases evenly over the shards
+	interleave := func(nLight int) {
+		lc, lj := append([]string{}, vcoq[:nLight]...), append([]any{}, vjs[:nLight]...)
+		hc, hj := append([]string{}, vcoq[nLight:]...), append([]any{}, vjs[nLight:]...)
+		vcoq, vjs = vcoq[:0], vjs[:0]
+		step := 1
+		if len(hc) > 0 {
+			step = len(lc)/len(hc) + 1
+		}
+		hi := 0
+		for i := range lc {
+			vcoq, vjs = append(vcoq, lc[i]), append(vjs, lj[i])
+			if i%step == step-1 && hi < len(hc) {
+				vcoq, vjs = append(vcoq, hc[hi]), append(vjs, hj[hi])
+				hi++
+			}
+		}
+		for ; hi < len(hc); hi++ {
+			vcoq, vjs = append(vcoq, hc[hi]), append(vjs, hj[hi])
+		}
+	}
 	lengths := []int{0, 1, 11, 12, 13, 35, 36, 37, 216, 2048, 2049}
 	if thorough {
 		for vc := 0; vc < 256; vc++ {
 			for fam := 0; fam < 256; fam++ {
 				for _, l := range lengths {
+					// the two 2 KiB lengths cost 30 ms each in the kernel: all 16 commands of version 2 and 8 other version bytes
+					if l >= 2048 && vc&0xF0 != 0x20 && vc%32 != 1 {
+						continue
+					}
 					addV(vc, fam, l, (vc+fam+l)%200)
 				}
 			}
 		}
-		m.V2Exhaustive = "all 256 version/command bytes x all 256 family bytes x lengths {0,1,11,12,13,35,36,37,216,2048,2049} (exhaustive)"
+		m.V2Exhaustive = "all 256 version/command bytes x all 256 family bytes x lengths {0,1,11,12,13,35,36,37,216} (exhaustive) + (version 2 x all 16 commands and 8 other version bytes) x all 256 family bytes x lengths {2048,2049}"
 	} else {
 		for vc := 0; vc < 256; vc++ {
 			for fam := 0; fam < 256; fam++ {
@@ -841,6 +870,7 @@ func main() {
 				}
 			}
 		}
+		interleave(256 * 256)
 		m.V2Exhaustive = "all 256 version/command bytes x all 256 family bytes at length 36 (exhaustive) + version 2 commands 0..2 x all 256 families x 11 lengths + commands 3..15 x 20 families x 11 lengths"
 	}
 	m.V2Cases = len(vcoq)
